@@ -48,12 +48,13 @@ structure Side where
 
 def Side.held (s : Side) : List Tun := s.tunnels ++ s.removed
 
-/-- unlockedInnerAddHostInfo: new primary, oldest retired beyond MaxHostInfosPerVpnIp -/
+/-- unlockedInnerAddHostInfo: new primary, oldest retired beyond MaxHostInfosPerVpnIp. The installed tunnel is a
+new object: it carries no pendingDeletion mark. -/
 def Side.install (s : Side) (t : Tun) : Side :=
   let l := t :: s.tunnels
   if l.length > Nebula.Gen.hsm_MaxHostInfosPerVpnIp then
-    { s with tunnels := l.dropLast, removed := s.removed ++ (l.getLast?).toList }
-  else { s with tunnels := l }
+    { s with tunnels := l.dropLast, removed := s.removed ++ (l.getLast?).toList, pdl := s.pdl.filter (· != t) }
+  else { s with tunnels := l, pdl := s.pdl.filter (· != t) }
 
 structure St where
   x : Side
